@@ -247,6 +247,7 @@ def main(argv=None):
     nontrivial = set()
     monitors = {}
     reach = {}
+    functions_seen = set()
     samples = []
     violations = []
     nviol_total = 0
@@ -285,6 +286,7 @@ def main(argv=None):
             a["worst_margin"] = max(a["worst_margin"], m["worst_margin"])
         for k, n in res["reach"].items():
             reach[k] = reach.get(k, 0) + n
+        functions_seen.update(res.get("functions", []))
         for k, v in res["notes"].items():
             notes.setdefault(k, v)
         if len(samples) < 6:
@@ -305,6 +307,21 @@ def main(argv=None):
         nmin = max(1, (int(nmin) + 1) // 2)
         if got < nmin:
             incon.append("monitor %s observed %d events (< %d required)" % (mname, got, nmin))
+
+    # ---- reach: which of the Python functions that the property's anchors point at were ever entered --------------------
+    reach_report = None
+    if not replay and not args.only_batch:
+        try:
+            from vf import reach as reachmod
+            anchored = reachmod.anchored_functions(prop, build.REPO, os.path.join(HERE, "properties.jsonl"))
+            hit = sorted(a for a in anchored if a in functions_seen)
+            missed = sorted(a for a in anchored if a not in functions_seen)
+            reach_report = {"library_functions_entered": len(functions_seen), "anchored_functions": len(anchored),
+                            "anchored_functions_entered": len(hit), "anchored_functions_never_entered": missed}
+            if anchored and functions_seen and not hit:
+                incon.append("none of the %d Python functions named by the property's anchors was entered by any batch" % len(anchored))
+        except Exception as e:      # reach is evidence, never a verdict
+            reach_report = {"error": "%s: %s" % (type(e).__name__, e)}
 
     # ---- known findings / verdict -----------------------------------
     known = load_known(prop)
@@ -364,6 +381,7 @@ def main(argv=None):
                              "worst_err_over_tol": round(m["worst_margin"], 6)}
                          for k, m in sorted(monitors.items())},
             "reach": dict(sorted(reach.items())),
+            "function_reach": reach_report,
             "batches": batches,
             "rounds": (rounds if not replay else 1),
             "sanitizer_reports": san_reports,
